@@ -233,6 +233,77 @@ def run(tier, seed):
       if op[0] == 'get_trial' and a[0] == 'err' and a[1] != ('raw', 'ResourceNotFoundError') and a[1][0] == 'raw' and a[1][1] in ('ENotFound', 'EKey'):
         concrete = True
         rep.violation('get_trial of a missing trial did not raise ResourceNotFoundError locally', {'program': prog[:i + 1], 'local': a})
+  # ---- real hosted algorithms (default policy factory): a deterministic stateful algorithm must hand out the same
+  # suggestions in the three deployments, also after the study has been deleted and re-created under the same name
+  def run_hosted(deploy, url, plan):
+    if deploy == 'local':
+      service, server = vizier_service.VizierServicer(database_url=url), None
+    else:
+      cls = vizier_server.DefaultVizierServer if deploy == 'grpc' else vizier_server.DistributedPythiaVizierServer
+      server = cls(database_url=url)
+      service = server.stub
+    out = []
+    try:
+      for (algo, grid, ops) in plan:
+        prob = vz.ProblemStatement()
+        prob.search_space.root.add_int_param('i', 0, grid[0])
+        prob.search_space.root.add_categorical_param('c', ['a', 'b', 'c'][:grid[1]])
+        prob.metric_information.append(vz.MetricInformation(name='m1', goal=vz.ObjectiveMetricGoal.MAXIMIZE))
+        sc = svc.svz.StudyConfig.from_problem(prob) if hasattr(svc, 'svz') else None
+        if sc is None:
+          from vizier.service import pyvizier as svz
+          sc = svz.StudyConfig.from_problem(prob)
+        sc.algorithm = algo
+        study = None
+        for op in ops:
+          try:
+            if op[0] == 'create':
+              st = service.CreateStudy(vs.CreateStudyRequest(parent='owners/o1', study=study_pb2.Study(display_name='h', study_spec=sc.to_proto())))
+              study = clients.Study(vizier_client.VizierClient(st.name, 'w0', service))
+              v = st.name
+            elif op[0] == 'suggest':
+              ts = study.suggest(count=op[1], client_id='w%d' % op[2])
+              v = sorted((t.id, tuple(sorted((k, str(x.value if hasattr(x, 'value') else x)) for k, x in t.parameters.items()))) for t in ts)
+              for t in ts:
+                if op[3]:
+                  t.complete(vz.Measurement({'m1': float(t.id)}))
+            elif op[0] == 'delete':
+              v = study.delete()
+            else:
+              raise AssertionError(op)
+            out.append(('ok', v))
+          except Exception as e:  # pylint: disable=broad-except
+            out.append(('err', cerr(e), repr(e)[:120]))
+    finally:
+      if server is not None:
+        server._server.stop(None)
+        if hasattr(server, '_pythia_server'):
+          server._pythia_server.stop(None)
+    return out
+
+  for hi in range(3 if tier == 'quick' else 12):
+    plan = []
+    for algo in (['GRID_SEARCH'] if tier == 'quick' else ['GRID_SEARCH', 'GRID_SEARCH']):
+      ops = [('create',)]
+      for _ in range(r.randrange(1, 4)):
+        ops.append(('suggest', r.randrange(1, 4), r.randrange(2), r.random() < 0.8))
+      ops += [('delete',), ('create',)]
+      for _ in range(r.randrange(1, 3)):
+        ops.append(('suggest', r.randrange(1, 4), r.randrange(2), r.random() < 0.8))
+      ops += [('delete',)]
+      plan.append((algo, (r.randrange(1, 4), r.randrange(1, 4)), ops))
+    url = None if hi % 2 == 0 else 'sqlite:///:memory:'
+    hobs = {d: run_hosted(d, url, plan) for d in ('local', 'grpc', 'split')}
+    rep.case({'hosted_plan': [(a, g, [o[0] for o in ops]) for a, g, ops in plan], 'local': [o[:2] for o in hobs['local']][:4]}, True)
+    rep.count('hosted_plan')
+    for d in ('grpc', 'split'):
+      for i, (a, b) in enumerate(zip(hobs['local'], hobs[d])):
+        if a[:2] != b[:2]:
+          concrete = True
+          rep.violation('hosted algorithm: deployments local and %s disagree at step %d' % (d, i),
+                        {'datastore': url or 'ram', 'plan': plan, 'step': i, 'local': a, d: b})
+          break
+
   bad = C.run_cases('C08', 'dep', 'From VZ Require Import Base.Prelude Model.Deploy.\n', cases, 'deploy_case_ok')
   rep.disagreements += len(bad)
   for i in bad[:3]:
